@@ -208,7 +208,9 @@ Fixpoint assign (its : list item) (args : list arg) (seq : nat) : assigned :=
       let seq' := if explicit then seq else S seq in
       let r := assign t args seq' in
       let which : option nat :=
-        if explicit then (if (arg_index sp =? 0)%Z then None else Some (Z.to_nat (arg_index sp - 1)))
+        if explicit then
+          (if (arg_index sp =? 0)%Z || (Z.of_nat (length args) <? arg_index sp)%Z then None    (* &N: 1 <= N <= #args *)
+           else Some (Z.to_nat (arg_index sp - 1)))
         else Some seq in
       match which with
       | None => mk_assigned [] true (char_pad r)
